@@ -38,6 +38,7 @@ type baseHandler struct {
 	ackCloseReceived chan struct{}
 	activeCommands   int32
 	readBuf          bytes.Buffer
+	readRest         []byte
 	writeBuf         bytes.Buffer
 
 	// Some global options + sync primitives required.
@@ -60,7 +61,20 @@ func (h *baseHandler) Done() <-chan struct{} {
 
 // Read is to send data to the dtail client via Reader interface.
 func (h *baseHandler) Read(p []byte) (n int, err error) {
-	defer h.readBuf.Reset()
+	// Deliver what did not fit into the caller's buffer last time first.
+	if len(h.readRest) > 0 {
+		n = copy(p, h.readRest)
+		h.readRest = h.readRest[n:]
+		return
+	}
+	defer func() {
+		// A message can be larger than p (e.g. a long log line and io.Copy's
+		// 32k buffer): keep the remainder for the next call instead of losing it.
+		if n < h.readBuf.Len() {
+			h.readRest = append(h.readRest[:0], h.readBuf.Bytes()[n:]...)
+		}
+		h.readBuf.Reset()
+	}()
 
 	select {
 	case message := <-h.serverMessages:
